@@ -721,10 +721,6 @@ func (ts *Service) handleCreateTask(w http.ResponseWriter, r *http.Request) {
 			task.Type = client.BatchTask
 		}
 		task.TICKscript = template.TICKscript
-		if err := ts.templates.AssociateTask(task.TemplateID, newTask.ID); err != nil {
-			httpd.HttpError(w, fmt.Sprintf("failed to associate task with template: %s", err), true, http.StatusBadRequest)
-			return
-		}
 	} else {
 		// Set task type
 		switch task.Type {
@@ -828,6 +824,16 @@ func (ts *Service) handleCreateTask(w http.ResponseWriter, r *http.Request) {
 		return
 	}
 
+	// Associate the task with its template only once it exists.
+	// An association left behind by a rejected request makes a later update of the template
+	// overwrite whatever task gets that ID.
+	if newTask.TemplateID != "" {
+		if err := ts.templates.AssociateTask(newTask.TemplateID, newTask.ID); err != nil {
+			httpd.HttpError(w, fmt.Sprintf("failed to associate task with template: %s", err), true, http.StatusInternalServerError)
+			return
+		}
+	}
+
 	// Count new task
 	vars.NumTasksVar.Add(1)
 	if newTask.Status == Enabled {
@@ -887,18 +893,6 @@ func (ts *Service) handleUpdateTask(w http.ResponseWriter, r *http.Request) {
 		if err != nil {
 			httpd.HttpError(w, fmt.Sprintf("unknown template %s: err: %s", task.TemplateID, err), true, http.StatusBadRequest)
 			return
-		}
-		if original.ID != updated.ID || original.TemplateID != updated.TemplateID {
-			if original.TemplateID != "" {
-				if err := ts.templates.DisassociateTask(original.TemplateID, original.ID); err != nil {
-					httpd.HttpError(w, fmt.Sprintf("failed to disassociate task with template: %s", err), true, http.StatusBadRequest)
-					return
-				}
-			}
-			if err := ts.templates.AssociateTask(templateID, updated.ID); err != nil {
-				httpd.HttpError(w, fmt.Sprintf("failed to associate task with template: %s", err), true, http.StatusBadRequest)
-				return
-			}
 		}
 		updated.Type = template.Type
 		updated.TICKscript = template.TICKscript
@@ -1032,6 +1026,21 @@ func (ts *Service) handleUpdateTask(w http.ResponseWriter, r *http.Request) {
 	} else {
 		if err := ts.tasks.Replace(updated); err != nil {
 			httpd.HttpError(w, fmt.Sprintf("failed to replace task definition: %s", err.Error()), true, http.StatusInternalServerError)
+			return
+		}
+	}
+
+	// Update the template association now that the task definition is saved,
+	// a rejected request must not change it.
+	if updated.TemplateID != "" && (original.ID != updated.ID || original.TemplateID != updated.TemplateID) {
+		if original.TemplateID != "" {
+			if err := ts.templates.DisassociateTask(original.TemplateID, original.ID); err != nil {
+				httpd.HttpError(w, fmt.Sprintf("failed to disassociate task with template: %s", err), true, http.StatusInternalServerError)
+				return
+			}
+		}
+		if err := ts.templates.AssociateTask(updated.TemplateID, updated.ID); err != nil {
+			httpd.HttpError(w, fmt.Sprintf("failed to associate task with template: %s", err), true, http.StatusInternalServerError)
 			return
 		}
 	}
